@@ -245,6 +245,57 @@ pub fn run(ctx: &Ctx, _args: &Args) -> i32 {
             }
         }
     });
+    // the repository's own fixture rule sets (raw JSON rules) with their requests and requests of other fixtures
+    let fixtures = crate::fixtures::load();
+    let all_requests: Vec<ReqSpec> = fixtures.iter().flat_map(|f| f.requests.iter().cloned()).collect();
+    let fx_report = run_sharded(jobs, |shard, report| {
+        let mut rng = Rng::stream(ctx.seed, 5000 + shard as u64);
+        for (i, fx) in fixtures.iter().enumerate() {
+            if i % jobs != shard {
+                continue;
+            }
+            for variant in 0..3 {
+                let churn: Vec<String> = if variant == 1 { fx.world.rules.iter().filter(|_| rng.coin()).map(|r| r.id.clone()).collect() } else { vec![] };
+                let proto = Case {
+                    world: fx.world.clone(),
+                    churn,
+                    request: ReqSpec::get("/"),
+                    cached: variant == 2,
+                };
+                let router = match guarded(|| build_router(&proto)) {
+                    Ok(r) => r,
+                    Err(panic) => {
+                        report.library_panic(&panic);
+                        continue;
+                    }
+                };
+                let mut probes: Vec<ReqSpec> = fx.requests.clone();
+                for _ in 0..12 {
+                    probes.push(rng.pick(&all_requests).clone());
+                }
+                for q in probes {
+                    report.eval();
+                    let case = Case { request: q.clone(), ..proto.clone() };
+                    match guarded(|| check(&case, &router)) {
+                        Err(panic) => report.library_panic(&panic),
+                        Ok(Err(m)) => report.violation("trace-disagrees", m, serde_json::to_value(&case).unwrap()),
+                        Ok(Ok(stats)) => {
+                            report.count("fixture_pairs_checked");
+                            if stats.matched > 0 {
+                                report.count("fixture_pairs_with_nonempty_match");
+                                report.nontrivial(mix(fnv_str(&fx.name), fnv_str(&serde_json::to_string(&q).unwrap()) ^ variant));
+                            }
+                            if stats.action_compared {
+                                report.count("pairs_where_last_trace_action_was_compared_with_live_action");
+                            }
+                        }
+                    }
+                }
+            }
+        }
+    });
+    report.merge(fx_report);
+    report.notes.insert("fixture_worlds_parsed".into(), json!(fixtures.len()));
     if !report.counters.contains_key("pairs_where_last_trace_action_was_compared_with_live_action") {
         report.inconclusive("the TraceAction comparison was never exercised");
     }
@@ -252,7 +303,7 @@ pub fn run(ctx: &Ctx, _args: &Args) -> i32 {
     finish(
         ctx,
         report,
-        "the C01 router/request generator (all 7 layers, all 64 flag combinations) with random effects from the C05 grid, distinct ranks in two thirds of the routers, optional remove+re-insert churn and cache warm-up; per (router, request): set(routes in trace_request) == set(match_request(normalised)), get_trace final route priority == get_route priority == max priority, get_trace route list == matched, and for tie-free matches the last TraceAction step observed with the C05 protocol at 6 codes == live action. non-trivial = distinct (router, request) with a non-empty match or a matched trace branch that ends without a route",
+        "the rule sets and requests harvested from the repository's generated router test (plain, churned, cached), and the C01 router/request generator (all 7 layers, all 64 flag combinations) with random effects from the C05 grid, distinct ranks in two thirds of the routers, optional remove+re-insert churn and cache warm-up; per (router, request): set(routes in trace_request) == set(match_request(normalised)), get_trace final route priority == get_route priority == max priority, get_trace route list == matched, and for tie-free matches the last TraceAction step observed with the C05 protocol at 6 codes == live action. non-trivial = distinct (router, request) with a non-empty match or a matched trace branch that ends without a route",
         &["sets (not multisets), as the statement says", "trace internals are read through their serde serialisation"],
         started,
         1000,
